@@ -306,9 +306,12 @@ def cases(draw):
 def typed_cases(draw):
     case = draw(cases())
     case["tuples"] = draw(st.booleans())
-    if draw(st.integers(0, 4)) == 0:
-        # the same path far from the origin (a large sheet, other user units): translate by 2^10..2^30 of its scale
-        off = case["scale"] * 2.0 ** draw(st.integers(10, 30))
+    # the same path far from the origin (a large sheet, other user units): translate by 2^10..2^30 of its scale, but
+    # only as far as the flatness stays >= 2^12 float steps of the translated coordinates (beyond that no midpoint
+    # can get closer than the flatness any more and no implementation can terminate)
+    k_max = min(30, int(math.floor(40 + math.log2(case["flat"] / case["scale"]))))
+    if k_max >= 10 and draw(st.integers(0, 4)) == 0:
+        off = case["scale"] * 2.0 ** draw(st.integers(10, k_max))
         ox, oy = off * draw(st.sampled_from([1, -1, 1, 0])), off * draw(st.sampled_from([1, -1, 1]))
         case["nodes"] = [[[h[0] + ox, h[1] + oy] for h in node] for node in case["nodes"]]
         case["tags"] = sorted(set(case["tags"]) | {"far_from_origin"})
